@@ -9,6 +9,10 @@ CHECKS = {
    text="Every obligation is a verification condition generated from the AST of the real Epoch methods and discharged by z3 for ALL integer years >= -4712 (no upper bound): _compute_jde equals an independent day count, _check_values accepts exactly the days the calendar has, get_date inverts the day count (two proved cuts), and the property itself is a lemma over those contracts. Anchors and the 96 month-name spellings are a complete finite enumeration on the real code.",
    note="Floats read as exact rationals (R-mode); this is backed by a native binary64 sweep (bounded, not counted as proved) of sampled years (quick) / every civil day -4712..6000 (thorough). Trusted: z3, CPython, the pyvc encoding (guarded per run by a canary obligation that must be refuted and by a CPython cross-check of the interpreter on random inputs).",
    technique="contract-based deductive verification: VCs from the Python AST of /repo, sidecar contracts, z3 (cvc5 fallback)", ref="DESIGN.md §3 C01"),
+ "C10": dict(category="proof",
+   text="leap_seconds() is proved equal to the independently written IERS list for ALL integer years and months 1..12 (z3, table loop unrolled over the concrete table, 28 paths); the utc=True / leap_seconds=k construction offset is proved for all civil dates (all years >= -4712, every month, every h:m:s) by symbolic execution of Epoch.__init__/set/_check_values/_compute_jde. The read-back clause, the override in both directions and the Delta-T clauses are finite, completely enumerated ground obligations over exactly the domain the property states (16308 + 2013 + 578 cases) run on the real binary64 code.",
+   note="R-mode (floats as exact rationals) in the symbolic obligations; oracle = specs/iers.py (27 effective dates). local=True paths read the wall clock and are external. leap_seconds=0 is documented as 'conversion disabled' and is only required to be consistent in both directions. Four genuine defects were found by these obligations and repaired (known_findings.json: fixed entries).",
+   technique="contract-based deductive verification (AST VCs + z3) plus exhaustive ground enumeration of the stated finite domain", ref="DESIGN.md §3 C10"),
 }
 NA_REASON = "check not built yet (work in progress; DESIGN.md has the plan)"
 
